@@ -2,18 +2,26 @@
 
 use crate::diagnostics::{Diagnostic, Diagnostics, Error};
 use crate::grammar::*;
+use std::collections::HashMap;
 
 pub fn validate_dictionary(dictionary: &Dictionary, diagnostics: &mut Diagnostics) {
     has_allowed_key_type(dictionary, diagnostics);
 }
 
 fn has_allowed_key_type(dictionary: &Dictionary, diagnostics: &mut Diagnostics) {
-    if let Some(e) = check_dictionary_key_type(&dictionary.key_type) {
+    if let Some(e) = check_dictionary_key_type(&dictionary.key_type, &mut HashMap::new()) {
         e.push_into(diagnostics)
     }
 }
 
-fn check_dictionary_key_type(type_ref: &TypeRef) -> Option<Diagnostic> {
+/// Checks whether `type_ref` is a valid dictionary key type, and returns a diagnostic if it isn't.
+///
+/// `checked_structs` remembers the verdict on every struct this check has been through already (by address), so that a
+/// struct which is reachable through many fields is only checked once, instead of once per path that leads to it.
+fn check_dictionary_key_type(
+    type_ref: &TypeRef,
+    checked_structs: &mut HashMap<*const Struct, bool>,
+) -> Option<Diagnostic> {
     // Optional types cannot be used as dictionary keys.
     if type_ref.is_optional {
         return Some(Diagnostic::new(Error::KeyMustBeNonOptional).set_span(type_ref.span()));
@@ -27,13 +35,27 @@ fn check_dictionary_key_type(type_ref: &TypeRef) -> Option<Diagnostic> {
                 return Some(Diagnostic::new(Error::StructKeyMustBeCompact).set_span(type_ref.span()));
             }
 
+            // If we've already checked this struct, reuse the verdict. Only the error itself needs to be recreated;
+            // its notes (the fields at fault) aren't used by the callers that can get here (only for the key type itself).
+            match checked_structs.get(&(struct_def as *const Struct)) {
+                Some(true) => return None,
+                Some(false) => {
+                    let error = Diagnostic::new(Error::StructKeyContainsDisallowedType {
+                        struct_identifier: struct_def.identifier().to_owned(),
+                    });
+                    return Some(error.set_span(type_ref.span()));
+                }
+                None => {}
+            }
+
             // Check that all the fields of the struct are also valid key types.
             // We collect the invalid fields so we can report them in the error message.
             let errors = struct_def
                 .fields()
                 .into_iter()
-                .filter_map(|field| check_dictionary_key_type(field.data_type()))
+                .filter_map(|field| check_dictionary_key_type(field.data_type(), checked_structs))
                 .collect::<Vec<_>>();
+            checked_structs.insert(struct_def as *const Struct, errors.is_empty());
             if !errors.is_empty() {
                 let mut error = Diagnostic::new(Error::StructKeyContainsDisallowedType {
                     struct_identifier: struct_def.identifier().to_owned(),
